@@ -132,6 +132,8 @@ impl<'a, R: RealNumberInternalTrait> Default for LibraryLoader<'a, R> {
 pub struct Interpreter<'a, R: RealNumberInternalTrait> {
     pub env: Rc<Environment<R>>,
     lib_loader: LibraryLoader<'a, R>,
+    // libraries already instantiated by this interpreter: every import refers to the same instance
+    libraries: HashMap<LibraryName, Library<R>>,
     imported_library: HashSet<LibraryName>,
     import_end: bool, // indicate program's import declaration part end
     pub program_directory: Option<PathBuf>,
@@ -149,6 +151,7 @@ impl<'a, R: RealNumberInternalTrait> Interpreter<'a, R> {
         let mut interpreter = Self {
             env: environment,
             lib_loader: LibraryLoader::default(),
+            libraries: HashMap::new(),
             imported_library: HashSet::new(),
             import_end: false,
             program_directory: None,
@@ -173,11 +176,16 @@ impl<'a, R: RealNumberInternalTrait> Interpreter<'a, R> {
         &self.lib_loader
     }
     pub fn append_lib_loader(&mut self, lib_loader: LibraryLoader<'a, R>) {
+        for name in lib_loader.lib_factories.keys() {
+            self.libraries.remove(name);
+        }
         self.lib_loader
             .lib_factories
             .extend(lib_loader.lib_factories.into_iter());
     }
     pub fn register_library_factory(&mut self, library_factory: LibraryFactory<'a, R>) {
+        // a new definition replaces an instance made from the old one
+        self.libraries.remove(library_factory.get_library_name());
         self.lib_loader.register_library_factory(library_factory);
     }
 
@@ -524,6 +532,9 @@ impl<'a, R: RealNumberInternalTrait> Interpreter<'a, R> {
         }
     }
     pub fn get_library(&mut self, name: Located<LibraryName>) -> Result<Library<R>> {
+        if let Some(library) = self.libraries.get(name.deref()) {
+            return Ok(library.clone());
+        }
         let factory = match self.lib_loader.lib_factories.get(&name) {
             Some(factory) => factory,
             None => {
@@ -535,7 +546,10 @@ impl<'a, R: RealNumberInternalTrait> Interpreter<'a, R> {
             }
         }
         .clone();
-        self.new_library(&factory)
+        let library = self.new_library(&factory)?;
+        self.libraries
+            .insert(name.deref().clone(), library.clone());
+        Ok(library)
     }
     pub fn eval_import_set(&mut self, import: &ImportSet) -> Result<Vec<(String, Value<R>)>> {
         match &import.data {
